@@ -41,6 +41,7 @@ def main():
         demo = os.path.join(out, 'demo.cpp')
         inc = f'-I{wt}/lib/core -I{wt}/lib/cpu'
         # demo on the unchanged tree
+        os.environ['COVFIE_ROOT'] = wt      # demonstrations that rebuild themselves find the tree here
         r0 = sh(f'g++ -std=c++20 -O2 {inc} {demo} -o {wt}/demo_clean && {wt}/demo_clean', timeout=600)
         meta['demo_without_change'] = {'rc': r0.returncode, 'tail': r0.stdout[-300:]}
         r = sh(['git', '-C', wt, 'apply', os.path.join(out, 'patch.diff')])
